@@ -654,6 +654,42 @@ class _Canon(ast.NodeTransformer):
         cname, ctables = (stack[-1][0], stack[-1][1]) if stack and stack[-1][2] == 0 else (None, None)
         return normalize_function(n, getattr(self, "_module_tables", None), ctables, cname)
 
+    def visit_Assign(self, n):
+        # `x = x + 1` / `x = 1 + x` / `x = x - 1` on a plain name with a numeric literal -> `x += 1` / `x -= 1` (numbers are immutable:
+        # re-binding and in-place addition are the same thing)
+        self.generic_visit(n)
+        v = n.value
+        if len(n.targets) == 1 and isinstance(n.targets[0], ast.Name) and isinstance(v, ast.BinOp) and isinstance(v.op, (ast.Add, ast.Sub)):
+            x = n.targets[0].id
+            num = lambda e: isinstance(e, ast.Constant) and type(e.value) in (int, float)
+            if isinstance(v.left, ast.Name) and v.left.id == x and num(v.right):
+                return ast.copy_location(ast.AugAssign(target=n.targets[0], op=v.op, value=v.right), n)
+            if isinstance(v.op, ast.Add) and isinstance(v.right, ast.Name) and v.right.id == x and num(v.left):
+                return ast.copy_location(ast.AugAssign(target=n.targets[0], op=v.op, value=v.left), n)
+        return n
+
+    @staticmethod
+    def _append_call(target, elt, like):
+        call = ast.Call(func=ast.Attribute(value=ast.Name(id=target.id, ctx=ast.Load()), attr="append", ctx=ast.Load()), args=[elt], keywords=[])
+        return ast.fix_missing_locations(ast.copy_location(ast.Expr(value=call), like))
+
+    def visit_AugAssign(self, n):
+        # `xs += [e]` on a plain name -> `xs.append(e)` (in-place growth of a list by one element)
+        self.generic_visit(n)
+        if isinstance(n.op, ast.Add) and isinstance(n.target, ast.Name) and isinstance(n.value, ast.List) and len(n.value.elts) == 1 \
+                and not isinstance(n.value.elts[0], ast.Starred):
+            return self._append_call(n.target, n.value.elts[0], n)
+        return n
+
+    def visit_Expr(self, n):
+        # statement `xs.extend([e])` / `xs.extend((e,))` on a plain name -> `xs.append(e)`
+        self.generic_visit(n)
+        c = n.value
+        if isinstance(c, ast.Call) and isinstance(c.func, ast.Attribute) and c.func.attr == "extend" and isinstance(c.func.value, ast.Name) and len(c.args) == 1 \
+                and not c.keywords and isinstance(c.args[0], (ast.List, ast.Tuple)) and len(c.args[0].elts) == 1 and not isinstance(c.args[0].elts[0], ast.Starred):
+            return self._append_call(c.func.value, c.args[0].elts[0], n)
+        return n
+
     def visit_IfExp(self, n):
         self.generic_visit(n)
         n.test = self._truth(n.test)
